@@ -273,6 +273,7 @@ def main():
 
     lxprops.sample_validation(run, "C09")   # whole lines through parse_line: operands == reference normal form
     file_route_table(run)
+    lxprops.stream_context_probe(run, "file_route")   # operands of the CURRENT file, whatever ran before / whatever the rule's options
     lxprops.rare_shape_battery(run, "C09")   # rare but real operand shapes: operands are the reference normal form
     hs = harnesses(t)
     res = ch.run_harnesses(run, hs)
